@@ -18,7 +18,7 @@ META = {
         "every flavour, from a thread payload that drives a private event loop), services (created before / after "
         "start / inside payloads) or executed (from outside threads, thread payloads and payloads of the other "
         "coroutine flavour), each alternating synchronous sections (overlap detector, context probe) and "
-        "checkpoints; 0-4 thread payloads blocking for 0.6 s, sometimes a crowd of 40-130 of them while coroutine payloads adopt more, adoption of thread payloads while thread creation fails (injected fault); line-level delay injection. The identity check "
+        "checkpoints; 0-4 thread payloads blocking for 0.6 s, sometimes a crowd of 40-130 of them while coroutine payloads adopt more, adoption of thread payloads while thread creation fails (injected fault); payloads parked on an awaitable only they reference while another thread runs a garbage collection; foreign threads adopting coroutine payloads while a shielded trio cleanup keeps the runtime in its shutdown phase; line-level delay injection. The identity check "
         "(one thread + one loop / one trio run per flavour over the whole run) is deterministic, the overlap "
         "detector a probabilistic second line. Non-trivial = both flavours had >= 2 payloads; distinct by shape."
     ),
@@ -165,8 +165,38 @@ def gen_case(rnd, spec):
             gen["payloads"].append({"id": new("starved"), "flavour": fl, "when": "queued", "cleanup": {"kind": "none"},
                                     "program": [["sleep", 0.05], ["adopt_no_threads", victim["id"]], ["beat", 0.02, None]]})
         gen.setdefault("tags", []).append("no_threads")
+    # payloads parked on something only they reference ("run until cancelled"), and a garbage collection from another thread:
+    # their whole life, cleanup included, belongs to the flavour's thread
+    if rnd.random() < 0.4:
+        for fl in common.COROUTINE:
+            for _ in range(rnd.randint(1, 3)):
+                p = {"id": new("parked"), "flavour": fl, "program": [["ctx"], ["sleep", 0.01], ["wait_private"]], "cleanup": {"kind": "sync", "dur": 0.0}}
+                if rnd.random() < 0.5:
+                    p["when"] = "queued"
+                    gen["payloads"].append(p)
+                elif rnd.random() < 0.5:
+                    gen["payloads"].append(p)
+                    script.append(["adopt", p["id"]])
+                else:
+                    gen["services"].append({"id": p["id"], "flavour": fl, "program": p["program"], "cleanup": p["cleanup"], "create": "before"})
+        script += [["sleep", 0.2], ["gc"]]
+        gen.setdefault("tags", []).append("parked_payloads_and_gc")
     script.append(["sleep", 0.9])
     script.append(["quiesce"])
+    # the shutdown window: a trio payload keeps the runtime in its cleanup phase while foreign threads still adopt
+    if rnd.random() < 0.35:
+        gen["payloads"].append({"id": "slow", "flavour": "trio", "when": "queued", "program": [["ctx"], ["block"]],
+                                "cleanup": {"kind": "shielded", "dur": rnd.choice([0.3, 0.5])}})
+        for t in range(rnd.randint(1, 2)):
+            ops = [["wait_event", "cancelled", "slow", 5.0]]
+            for j in range(rnd.randint(3, 8)):
+                late = {"id": new("window"), "flavour": rnd.choice(["trio", "trio", "asyncio"]), "cleanup": {"kind": "none"},
+                        "program": [["ctx"], ["crit", 300], ["sleep", 0.01], ["crit", 300]]}
+                gen["payloads"].append(late)
+                ops += [["adopt", late["id"]], ["sleep", rnd.choice([0.0, 0.01, 0.03])]]
+            script.append(["thread", ops])
+        script.append(["shutdown"])
+        gen.setdefault("tags", []).append("shutdown_window")
     gen["script"] = script
     return {"watchdog": 40, "inject": common.inject_conf(rnd, 0.7), "generations": [gen], "meta": {"direction": direction}}
 
@@ -201,10 +231,18 @@ def judge(case, run, result):
     observed = {"asyncio": 0, "trio": 0}
     payload_counts = {"asyncio": set(), "trio": set()}
     for e in run.events:
-        if e.get("gen") != 0 or e["kind"] not in ("start", "step", "crit") or e.get("pid") not in specs:
+        if e.get("gen") != 0 or e["kind"] not in ("start", "step", "crit", "cancelled", "cleanup-done") or e.get("pid") not in specs:
             continue
         sp = specs[e["pid"]]
         fl = sp["flavour"]
+        if e["kind"] in ("cancelled", "cleanup-done"):
+            # the end of a payload's life belongs to the same thread as the rest of it
+            if fl in common.COROUTINE:
+                result.count("payload_endings_checked")
+                if e["th"] != homes[fl]["th"]:
+                    problems.append(("%s payload %s was torn down (%s) on another thread than the one all %s payloads run on%s"
+                                     % (fl, e["pid"], e["kind"], fl, "" if run.first("cancelled", gen=0, pid=e["pid"]) else ", and without ever being cancelled"), None))
+            continue
         role = "executed" if sp.get("executed") else "service" if e["pid"].startswith("svc:") else "adopted"
         if fl in common.COROUTINE:
             observed[fl] += 1
@@ -251,7 +289,7 @@ def judge(case, run, result):
         result.count("blocking_thread_payloads_observed")
     for tag in gen.get("tags", []):
         result.count("scenarios_with_%s" % tag)
-    unexpected = [e for e in run.of("raised", gen=0, op="adopt") if not e["pid"].startswith("nothread")]
+    unexpected = [e for e in run.of("raised", gen=0, op="adopt") if not e["pid"].startswith(("nothread", "window"))]
     if unexpected:
         e = unexpected[0]
         problems.append(("adopt of %s by %s raised %s(%s)" % (e["pid"], e["by"], e["exc"], e["msg"]), None))
@@ -288,7 +326,8 @@ def run_shard(spec):
 
 def finish(total, tier):
     need = ["synchronous_sections_checked", "blocking_thread_payloads_observed", "heartbeats_during_blocking", "scenarios_with_foreign_loop_submitter",
-            "steps_adopted_threading", "sections_that_adopt_checked", "blocking_executes_observed", "scenarios_with_crowd", "scenarios_with_no_threads"]
+            "steps_adopted_threading", "sections_that_adopt_checked", "blocking_executes_observed", "scenarios_with_crowd", "scenarios_with_no_threads",
+            "scenarios_with_parked_payloads_and_gc", "scenarios_with_shutdown_window", "payload_endings_checked"]
     need += ["steps_%s_%s" % (r, f) for r in ("adopted", "service", "executed") for f in common.COROUTINE]
     for name in need:
         if not total.counters.get(name) and not total.violations:
